@@ -8,6 +8,8 @@ V = os.path.dirname(os.path.dirname(os.path.abspath(__file__)))
 p = os.path.join(V, "rules", "expect.json")
 exp = json.load(open(p))
 added = 0
+# counts that legitimately shrink under behaviour-preserving rewrites (helpers merged): no minimum
+NEVER = {"R6.base_masking_primitives"}
 for f in sorted(glob.glob(os.path.join(V, "evidence", "C*.json"))):
     e = json.load(open(f))
     pid = e["property_id"]
@@ -16,6 +18,8 @@ for f in sorted(glob.glob(os.path.join(V, "evidence", "C*.json"))):
         continue
     d = exp.setdefault(pid, {})
     for k, n in sorted((cov.get("instance_counts") or {}).items()):
+        if k in NEVER:
+            continue
         if k not in d and n > 0:
             d[k] = {"min": (n + 1) // 2, "why": "%d on the tree the rules were confirmed on" % n}
             added += 1
